@@ -367,6 +367,34 @@ pub fn run_c11(run: &Run) {
         }
     }
     run.sample(json!({"type": "call_seq", "text": "s(a).s(b).ac(a,neg(b)).ac(b,neg(a)).", "bridged": false, "calls": [13, 4, 1], "call_names": [CALL_NAMES[13], CALL_NAMES[4], CALL_NAMES[1]]}));
+    // once more with a logger that accepts TRACE records: all call sequences of length <= 2 on A(2)
+    {
+        crate::report::trace_logging(true);
+        let src = Source::FamCompact(fam_a(2));
+        let res = run.par_family(
+            "call sequences of length <= 2 on A(2) (native) with trace logging switched on",
+            src.size(),
+            || 0u64,
+            |st, k| {
+                let c = src.get(k);
+                let mut fresh: Vec<Option<Norm>> = vec![None; CALLS_EXT];
+                for len in 1..=2usize {
+                    for sk in 0..(CALLS as u64).pow(len as u32) {
+                        let seq = decode_seq(sk, len);
+                        *st += 1;
+                        for (kind, msg) in seq_case(&c.text, &c.tts, false, &seq, &mut fresh, false) {
+                            run.violation(&format!("trace-logging:{}", kind), format!("{} on {} (a logger accepting TRACE records is installed)", msg, c.text), json!({"type": "call_seq", "text": c.text, "tts": c.tts, "bridged": false, "calls": seq, "trace_logging": true}));
+                        }
+                    }
+                }
+            },
+            &|k| src.describe(k),
+        );
+        for st in res {
+            run.add_counts(0, st, st, 0);
+        }
+        crate::report::trace_logging(false);
+    }
     run.extra("states_are", json!("store states (a) and ADF objects with their call history (b)"));
     run.extra("transitions_are", json!("store operations (a) and public calls executed inside call sequences (b)"));
 }
